@@ -281,7 +281,24 @@ def m_consumer(I, st, fr, t, args, name):
     return NotImplemented
 
 
+def m_bool_then(I, st, fr, t, args, name):
+    """bool::then(b, f) = if b { Some(f()) } else { None };  bool::then_some(b, v) = if b { Some(v) } else { None }"""
+    SOME = lambda x: F.Agg('std::option::Option', 'Some', [x])
+    NONE = F.Agg('std::option::Option', 'None', [])
+    done = lambda s, v: I.ret(s, s.frames[-1], t, v)
+    lazy = name.endswith('::then')
+
+    def decided(s, bv):
+        if not bv:
+            return done(s, NONE)
+        if not lazy:
+            return done(s, SOME(args[1]))
+        return apply(I, s, args[1], [], lambda s2, r: done(s2, SOME(r)))
+    return _top(I, st, lambda s: fork_bool(I, s, args[0], decided))
+
+
 def register(models):
+    models[r'^core::bool::<impl bool>::(then|then_some)$'] = m_bool_then
     models[r'^std::iter::Iterator::(' + '|'.join(ADAPTORS) + r')$'] = m_adaptor
     models[r'^<std::iter::(Map|Filter|FilterMap|Copied|Cloned|Inspect)<.*> as std::iter::Iterator>::next$'] = m_adaptor_next
     models[r'^<I as std::iter::IntoIterator>::into_iter$'] = m_into_iter_identity
